@@ -49,6 +49,9 @@ func VerifSimResetRun() {
 	authFn = nil
 }
 
+// VerifSimRegisterMeta registers the meta endpoints (auth/bearer, auth/basic, auth/reset, ...; normally done in prep).
+func VerifSimRegisterMeta() error { return registerMetaEndpoints() }
+
 // VerifSimUpdateAPIKeys imports the configured API keys (normally triggered by the config change event).
 func VerifSimUpdateAPIKeys() { _ = updateAPIKeys(nil, nil) } //nolint:staticcheck
 
